@@ -652,11 +652,21 @@ class C05(core.Check):
             if tier != "quick" or i % 7 == 0:
                 yield from self.all_cuts(encs[(i + 1) % 3], codes, "table-cuts", [seg], via="getinput", with_timeouts=False)
         # (C) _keyconv and every single byte, every encoding
+        def doc_byte(b):
+            # documented single keys (docs/manual/userinput.rst, Screen.get_input docstring)
+            if 32 <= b < 127:
+                return ["k", chr(b)]
+            if b in (9, 10, 13, 8, 127):
+                return ["k", {9: "tab", 10: "enter", 13: "enter", 8: "backspace", 127: "backspace"}[b]]
+            if 1 <= b <= 26:
+                return ["k", "ctrl " + chr(96 + b)]
+            return None
         for enc in encs:
             for b in range(256):
+                seg = [[b], doc_byte(b)]
                 for more in (0, 1):
-                    yield self.pk(enc, more, [b], "byte")
-                yield self.pk(enc, 1, [b, 65], "byte")
+                    yield self.pk(enc, more, [b], "byte", [seg])
+                yield self.pk(enc, 1, [b, 65], "byte", [seg, [[65], ["k", "A"]]])
                 yield self.pk(enc, 0, [27, b], "esc-byte")
                 yield self.pk(enc, 1, [27, b, 65], "esc-byte")
         for k, _ in keyconv:
@@ -741,7 +751,7 @@ class C05(core.Check):
                 if max(bs) < 256:
                     yield from self.all_cuts(enc, bs + [27, 91, 65], "utf8-bad-cuts")
         # all lead bytes x all second bytes (utf8 2-byte structure, double-byte tables)
-        step2 = 1 if tier != "quick" else 5
+        step2 = 1 if tier != "quick" else 7
         for a in range(0x80, 0x100):
             for b in range(0, 0x100, step2):
                 for enc in ("utf8", "wide"):
@@ -807,7 +817,7 @@ class C05(core.Check):
     def cases(self, rng, tier):
         yield from self.structured(tier)
         pool = SegPool(self.table()[0])
-        nrand = 6000 if tier == "quick" else 120000
+        nrand = 5000 if tier == "quick" else 120000
         for _ in range(nrand):
             yield self.random_stream_case(rng, pool)
         for _ in range(nrand // 2):
